@@ -333,3 +333,27 @@ package sender
 //@   at[C15,C14] (*rsyncwire.Conn).WriteString: assert [entry-as-protocol-27] s.st.Opts.always_checksum == 0 ==> select(ghost.bufacc, addr(s.fec.buf)) == entryUpToLink(s, flags, name, size, data(info), mode, path)
 //@   at[C15] (*rsyncwire.Buffer).WriteInt64: assert [head-then-length] select(ghost.bufacc, addr(s.fec.buf)) == entryHead(flags, name) && flags == 64 + ite(path == ".", 1, 0)
 //@   at[C15] (*rsyncwire.Buffer).WriteInt32@3: assert [then-mode] select(ghost.bufacc, addr(s.fec.buf)) == accApp(entryLen(entryHead(flags, name), size), valEnc(typeid("int32"), wrap32s(infoMSec(data(info)))))
+
+// ---------------------------------------------------------------- C15/C14: the file list trailer
+// After the entries: the end-of-list byte 0; then, exactly under -o, the uid
+// list (triples id != 0, name length, name, taken from the uid map) closed by
+// an int32 0; then, exactly under -g, the gid list in the same form from the
+// gid map; then the int32 i/o error flag. stripIds(a, S, N) is a with every
+// trailing triple (id, l, N[id]) with id in S removed.
+//@ spec func stripIds(a: int, S: IntSet, N: StrArray): int
+//@ axiom strip-id-triple: forall a: int, id: int, l: int, n: Str, S: IntSet, N: StrArray :: id != 0 && select(S, id) && n == select(N, id) ==> stripIds(accApp(accApp(accApp(a, valEnc(typeid("int32"), id)), valEnc(typeid("uint8"), l)), strTok(n)), S, N) == stripIds(a, S, N)
+//@ axiom strip-stops-at-values: forall a: int, tg: int, v: int, S: IntSet, N: StrArray :: stripIds(accApp(a, valEnc(tg, v)), S, N) == accApp(a, valEnc(tg, v))
+//@ spec func listStart(): int = accApp(accEmpty, valEnc(typeid("uint8"), 0))
+//@ spec func listClosed(c: bool, a: int): bool = c ==> accLast(a) == valEnc(typeid("int32"), 0)
+//@ spec func beforeList(c: bool, a: int, m: map[int32]string): int = ite(c, stripIds(accPrefix(a), keys(m), vals(m)), a)
+//@ spec func trailerOK(a: int, uidOn: bool, um: map[int32]string, gidOn: bool, gm: map[int32]string, ioerr: int): bool = accLast(a) == valEnc(typeid("int32"), ioerr) && listClosed(gidOn, accPrefix(a)) && listClosed(uidOn, beforeList(gidOn, accPrefix(a), gm)) && beforeList(uidOn, beforeList(gidOn, accPrefix(a), gm), um) == listStart()
+//@ spec func idKeysNonzero(m: map[int32]string): bool = forall k: int :: has(m, k) ==> k != 0
+//@ func (*sender.Transfer).SendFileList
+//@   loop[C15] 0: invariant [id-maps-hold-nonzero-ids] idKeysNonzero(uidMap) && idKeysNonzero(gidMap)
+//@   loop[C15] 1: invariant [uid-list-open] idKeysNonzero(uidMap) && idKeysNonzero(gidMap) && stripIds(select(ghost.bufacc, addr(fec.buf)), keys(uidMap), vals(uidMap)) == listStart()
+//@   loop[C15] 2: invariant [gid-list-open] idKeysNonzero(gidMap) && listClosed(st.Opts.preserve_uid != 0, stripIds(select(ghost.bufacc, addr(fec.buf)), keys(gidMap), vals(gidMap))) && beforeList(st.Opts.preserve_uid != 0, stripIds(select(ghost.bufacc, addr(fec.buf)), keys(gidMap), vals(gidMap)), uidMap) == listStart()
+//@   at[C15,C14] (*rsyncwire.Conn).WriteString: assert [trailer-as-protocol-27] trailerOK(select(ghost.bufacc, addr(fec.buf)), st.Opts.preserve_uid != 0, uidMap, st.Opts.preserve_gid != 0, gidMap, ioErrors)
+//@ func (*sender.scopedWalker).walkFn
+//@   preserves[C15] [id-maps-hold-nonzero-ids] idKeysNonzero(s.uidMap) && idKeysNonzero(s.gidMap)
+//@ func (*sender.scopedWalker).walk
+//@   preserves[C15] [id-maps-hold-nonzero-ids] idKeysNonzero(s.uidMap) && idKeysNonzero(s.gidMap)
